@@ -224,7 +224,7 @@ func (o *OracleC11) maybeProbe() {
 	var tv byte
 	kind := ""
 	redeliver := false
-	switch tape.Draw(SProbe, 10) {
+	switch tape.Draw(SProbe, 11) {
 	case 0:
 		kind = "index_outside_validator_list"
 		p = mk(types[tape.Draw(SProbe, uint64(len(types)))], h, v, nv+int(tape.Draw(SProbe, 3)))
@@ -315,6 +315,26 @@ func (o *OracleC11) maybeProbe() {
 		if th == h && tv == v {
 			return
 		}
+	case 8:
+		// a response that names another proposal than the one the node holds for this view is
+		// dropped by the protocol (it can never count): like every dropped input it must leave
+		// the node - its tables, its timer - as it was
+		q, ok := d.PreparationPayloads[prim].(*Payload)
+		if !ok || q == nil || q.T != dbft.PrepareRequestType || q.V != v || nv < 3 {
+			return
+		}
+		var free []int
+		for i := 0; i < nv; i++ {
+			if i != prim && i != d.MyIndex && d.PreparationPayloads[i] == nil {
+				free = append(free, i)
+			}
+		}
+		if len(free) == 0 {
+			return
+		}
+		kind = "response_naming_another_proposal"
+		p = &Payload{T: dbft.PrepareResponseType, H: h, V: v, Idx: uint16(free[tape.Draw(SProbe, uint64(len(free)))]), Body: &PrepResp{Prep: rh()}, sender: -1}
+		p.sign(s.kr.Priv(s.sc.ValsAt(h)[p.Idx]))
 	default:
 		// redelivery of a payload the node currently holds
 		var held []*Payload
